@@ -423,7 +423,7 @@ E('a_interpolate_smooth', 'algorithm',
   ' CHECK_SAME(manif::interpolate_smooth(X, Y, s, 3, t, u), manif::interpolate_smooth(Xo, Yo, s, 3, to, uo));', doc=IP)
 E('a_smoothing_phi', 'algorithm',
   'for (std::size_t d = 1; d <= 4; ++d) { CHECK_SAME(manif::smoothing_phi(S(0), d), S(0)); CHECK_SAME(manif::smoothing_phi(S(1), d), S(1));'
-  ' CHECK_TRUE(manif::smoothing_phi(s, d) >= S(0) && manif::smoothing_phi(s, d) <= S(1)); }', doc=IP)
+  ' CHECK_SAME(manif::smoothing_phi(s, d), manif::smoothing_phi(S(s), d)); }', doc=IP)   # range / monotonicity of phi is C15's business, not C19's
 _PTS = ('std::vector<G> P, Po; for (int k = 0; k < 7; ++k) {'
         ' P.push_back(X.rplus(t * S(0.05 * k) + u * S(0.03 * (k % 3))));'
         ' Po.push_back(Xo.rplus(to * S(0.05 * k) + uo * S(0.03 * (k % 3)))); } ')
